@@ -19,6 +19,7 @@ type Profile struct {
 	Minimal      bool // builds may use load_outputs=minimal
 	Checks       bool // targets may carry output checks
 	Timeouts     bool
+	TimeoutPct   int // share of targets that declare a timeout (default 25)
 	DirOutputs   bool
 	BinOutputs   bool
 	MinSteps     int
@@ -139,7 +140,7 @@ func GenWS(t *rapid.T, p Profile) WS {
 					Establish: rapid.IntRange(0, 3).Draw(t, "establish") > 0})
 			}
 		}
-		if p.Timeouts && rapid.IntRange(0, 3).Draw(t, "timeout") == 0 {
+		if p.Timeouts && rapid.IntRange(0, 99).Draw(t, "timeout") < timeoutPct(p) {
 			tg.Timeout = "8s" // far above the ~50 ms a command takes even on a loaded machine; the slow switch sleeps 40 s
 		}
 		if rapid.IntRange(0, 5).Draw(t, "fp") == 0 {
@@ -200,9 +201,14 @@ func GenHistory(t *rapid.T, p Profile) History {
 			}
 		case "taint":
 			// a tainted target whose forced run fails keeps its taint: the build after the repair must run it again
-			if len(p.ExtSteps) > 0 && rapid.IntRange(0, 2).Draw(t, "taintfail") == 0 {
+			switch m := rapid.IntRange(0, 3).Draw(t, "taintmacro"); {
+			case m == 0 && len(p.ExtSteps) > 0:
 				h.Steps = append(h.Steps, Step{Kind: "set-fail", T: s.T}, Step{Kind: "build", Build: &BuildOpts{Patterns: []string{"//..."}}}, Step{Kind: "clear-switches"},
 					Step{Kind: "build", Build: &BuildOpts{Patterns: []string{"//..."}}}, Step{Kind: "build", Build: &BuildOpts{Patterns: []string{"//..."}}})
+			case m == 1:
+				// tainted AND changed: the run that the cache miss causes anyway must consume the taint, the build after it runs nothing
+				h.Steps = append(h.Steps, Step{Kind: "bump-nonce", T: s.T, V: 1}, Step{Kind: "build", Build: &BuildOpts{Patterns: []string{"//..."}}},
+					Step{Kind: "build", Build: &BuildOpts{Patterns: []string{"//..."}}})
 			}
 		}
 		if k == "toggle-file" || (k == "edit-content" && rapid.IntRange(0, 3).Draw(t, "revert") == 0) {
@@ -241,4 +247,11 @@ func genBuild(t *rapid.T, p Profile, w WS) *BuildOpts {
 		o.LoadOutputs = "minimal"
 	}
 	return o
+}
+
+func timeoutPct(p Profile) int {
+	if p.TimeoutPct > 0 {
+		return p.TimeoutPct
+	}
+	return 25
 }
